@@ -845,6 +845,7 @@ pub fn c12_accept(ctx: &Ctx, rng: &mut Rng, o: &mut Out) {
   o.oracle("c12-perturbation-rejected", true, json!({"cases": cases.len(), "failures": f_pert}));
   o.oracle("c12-fix-substitutes", true, json!({"cases": n_subst, "failures": f_subst}));
   c12_globals(o);
+  c12_rule_with_globals(o);
   c12_globals_generated(ctx, rng, o);
 }
 
@@ -922,6 +923,70 @@ fn c12_globals(o: &mut Out) {
     }
   }
   o.oracle("c12_globals", true, json!({"cases": cases.len(), "failures": failures}));
+}
+
+/// `c12_rule_with_globals`: a rule file loaded next to the project's GLOBAL utility rules (`utilDirs`).
+/// The variables a global utility captures are not defined for a rule (least of all for one that
+/// does not refer to the utility): a `fix`, a transformation source or a `constraints` key that uses
+/// such a name without capturing it must be rejected exactly as without any global rule; the same
+/// rule capturing the variable itself is accepted.
+fn c12_rule_with_globals(o: &mut Out) {
+  let globals_sets: Vec<(&str, Vec<String>)> = vec![
+    ("none", vec![]),
+    ("one capturing global", vec![json!({"id": "log-call", "language": "JavaScript", "rule": {"pattern": "logger.$METHOD($$$ARGS)"}}).to_string()]),
+    (
+      "two globals, one with a local utility",
+      vec![
+        json!({"id": "num", "language": "JavaScript", "rule": {"kind": "number", "pattern": "$ARGS"}}).to_string(),
+        json!({"id": "call", "language": "JavaScript", "utils": {"inner": {"pattern": "$METHOD($$$REST)"}}, "rule": {"matches": "inner"}}).to_string(),
+      ],
+    ),
+  ];
+  // (name, section added to the rule `foo($A)`, the error an undefined variable must give)
+  let sections: Vec<(&str, Value, &str)> = vec![
+    ("fix string", json!({"fix": "bar($METHOD)"}), "UndefinedMetaVar.fix"),
+    ("fix string multi", json!({"fix": "bar($$$ARGS)"}), "UndefinedMetaVar.fix"),
+    ("fix object", json!({"fix": {"template": "bar($METHOD)"}}), "UndefinedMetaVar.fix"),
+    ("transform source", json!({"transform": {"T": {"substring": {"source": "$METHOD", "startChar": 1}}}, "fix": "bar($T)"}), "UndefinedMetaVar.transform"),
+    ("transform replace source", json!({"transform": {"T": {"replace": {"source": "$ARGS", "replace": "a", "by": "b"}}}}), "UndefinedMetaVar.transform"),
+    ("constraints key", json!({"constraints": {"METHOD": {"regex": "^l"}}}), "UndefinedMetaVar.constraints"),
+    ("message only", json!({"message": "found $METHOD"}), ""),
+  ];
+  let mut jobs = vec![];
+  let mut meta = vec![];
+  for (gname, gs) in &globals_sets {
+    for (sname, section, err) in &sections {
+      for captured in [false, true] {
+        // the control captures the variable itself: `foo($A, $METHOD, $$$ARGS)`
+        let pattern = if captured { "foo($A, $METHOD, $$$ARGS)" } else { "foo($A)" };
+        let mut d = json!({"id": "r", "language": "JavaScript", "rule": {"pattern": pattern}});
+        for (k, v) in section.as_object().unwrap() {
+          d[k.as_str()] = v.clone();
+        }
+        jobs.push(json!({"k": "api", "role": "rule", "y": d.to_string(), "g": gs, "src": [["JavaScript", "foo(1, info, 2);\nlogger.info(1, 2);\n"]]}));
+        meta.push((gname.to_string(), sname.to_string(), captured, if captured { "" } else { *err }, d));
+      }
+    }
+  }
+  let answers = procpool::run_jobs(&jobs, procpool::nproc());
+  let mut failures = 0usize;
+  for ((gname, sname, captured, want, doc), ans) in meta.iter().zip(answers.iter()) {
+    let load = ans.detail["load"].as_str().unwrap_or("?");
+    let v = ans.detail["v"].as_str().unwrap_or("");
+    let ok = !ans.class.crashed() && if want.is_empty() { load == "ok" } else { load == "err" && v.ends_with(want) };
+    if !ok {
+      failures += 1;
+      let demanded = if want.is_empty() { "accepted".to_string() } else { format!("rejected ..{want}") };
+      let got = if ans.class.crashed() { format!("crashed ({})", ans.class.name()) } else if load == "ok" { "accepted".to_string() } else { format!("rejected {v}") };
+      o.oracle(
+        "c12_rule_with_globals",
+        false,
+        json!({"fp": format!("c12 rule next to global utilities ({gname}), {sname}, captured by the rule itself={captured}: demanded [{demanded}]"),
+               "got": got, "rule": doc, "globals": globals_sets.iter().find(|g| g.0 == gname).map(|g| g.1.clone())}),
+      );
+    }
+  }
+  o.oracle("c12_rule_with_globals", true, json!({"cases": meta.len(), "failures": failures}));
 }
 
 // ---------------------------------------------------------------------------------------
